@@ -136,7 +136,7 @@ open Factory in
 theorem newest_sheds_incoming_once (w : W) (j : Job) (L : Nat) (hd : w.disc = some (L, .newest))
     (hdisc : discardable w.cfg j = true) (hfull : L ≤ w.queue.length) :
     (w.maybeEnqueue j).queue = w.queue ∧
-    (w.maybeEnqueue j).env.log = w.env.log ++ [loadshedEv w.env.hasHandler j] ++ (if j.port then [Ev.reply j.id true] else []) :=
+    (w.maybeEnqueue j).env.log = w.env.log ++ [loadshedEv w.handler j] ++ (if j.port then [Ev.reply j.id true] else []) :=
   maybeEnqueue_newest_shed w j L hd hdisc hfull
 
 open Factory in
@@ -146,7 +146,7 @@ report per shed job. -/
 theorem oldest_sheds_each_once (w : W) (j : Job) (L : Nat) (hd : w.disc = some (L, .oldest)) :
     ∃ shed : List Job,
       (w.queue ++ [{ j with port := false }]).Perm (shed ++ (w.maybeEnqueue j).queue) ∧
-      (w.maybeEnqueue j).env.log = (w.env.accept j).log ++ shed.map (loadshedEv w.env.hasHandler) :=
+      (w.maybeEnqueue j).env.log = (w.env.accept j).log ++ shed.map (loadshedEv w.handler) :=
   maybeEnqueue_oldest_shed w j L hd
 
 
@@ -189,7 +189,7 @@ theorem rate_limited_dispatch (w : W) (j : Job) (c : LeakyBucket.Cfg) (lb : Leak
     (hne : j.expired w.env.now = false) (hd : w.drain = .notDraining) (hrl : w.rl = some (c, lb))
     (hno : (LeakyBucket.check c lb w.env.now).2 = false) :
     (w.dispatch j).env.log = w.env.log ++
-        (Ev.discard .rateLimited j.id w.env.hasHandler :: (if j.port then [Ev.reply j.id true] else [])) ∧
+        (Ev.discard .rateLimited j.id w.handler :: (if j.port then [Ev.reply j.id true] else [])) ∧
     (w.dispatch j).queue = w.queue ∧ (w.dispatch j).pool = w.pool ∧
     (w.dispatch j).rl = some (c, (LeakyBucket.check c lb w.env.now).1) := by
   unfold W.dispatch W.routeMessage W.routeLimited
@@ -242,7 +242,7 @@ port — and reaches neither a worker nor a queue. -/
 theorem drain_refuses_dispatch (w : W) (j : Job) (hne : j.expired w.env.now = false)
     (hd : w.drain ≠ .notDraining) :
     (w.dispatch j).env.log = w.env.log ++
-        (Ev.discard .shutdown j.id w.env.hasHandler :: (if j.port then [Ev.reply j.id true] else [])) ∧
+        (Ev.discard .shutdown j.id w.handler :: (if j.port then [Ev.reply j.id true] else [])) ∧
     (w.dispatch j).queue = w.queue ∧ (w.dispatch j).pool = w.pool := by
   unfold W.dispatch
   have : (w.drain == Drain.notDraining) = false := by
